@@ -32,7 +32,7 @@ CHECKS = {
    note=S_NOTE),
  'C12': dict(engine='vsched', cat='model_checking', ref='4 (C12), 2.2',
    technique='stateless model checking of the instrumented real code (list size reduced to 3 so the list->maps migration is reachable) plus vector-clock race detection on every IPv4Filter field',
-   text='Writers owning their ranges (crossing the migration, toggling 0.0.0.0/0) and readers; every interleaving at RWMutex and atomic operations; call/return instants are monitor events so every real-time order is explored; oracle is the statement itself (true required if one range present throughout the call, false required if none present at any time), final agreement with the per-goroutine sequential model on boundary probes, no race, no panic. Scenario G: /32, /31, /16 and /2 ranges on both sides of the list->maps switch. Scenarios H: the same range added twice and removed once (alone, next to a second writer, re-added while present before the switch).',
+   text='Writers owning their ranges (crossing the migration, toggling 0.0.0.0/0) and readers; every interleaving at RWMutex and atomic operations; call/return instants are monitor events so every real-time order is explored; oracle is the statement itself (true required if one range present throughout the call, false required if none present at any time), final agreement with the per-goroutine sequential model on boundary probes, no race, no panic. Scenario G: /32, /31, /16 and /2 ranges on both sides of the list->maps switch. Scenarios H: the same range added twice and removed once (alone, next to a second writer, re-added while present before the switch). Scenarios A2 and B4 give every writer call an instant of its own, so that \'present throughout the call\' is also decided for ranges removed later by their owner; B2, B3: 0.0.0.0/0 present while a writer crosses the switch.',
    note=S_NOTE + ' netutil is rebuilt with listSize=3 by constant override; if the constant disappears the check reports INFRA-ERROR rather than passing vacuously.'),
  'C19': dict(engine='vsched', cat='model_checking', ref='4 (C19), 2.2',
    technique='stateless model checking of the instrumented real code: call sequences are free choices enumerated together with all writer/consumer interleavings (unbounded)',
@@ -40,7 +40,7 @@ CHECKS = {
    note=S_NOTE),
  'C02': dict(engine='vsched', cat='model_checking', ref='4 (C02), 2.2',
    technique='stateless model checking of the instrumented real logger: all interleavings at pool get/put, outMu and inside the destination Write, differential oracle against the same record logged alone',
-   text='For each of the three handlers, 2-3 goroutines x 1-3 operations (root log, pre-derived child log, derive-then-log, below threshold, 20 KiB record, formatted log); Write begin/end are monitor events (no overlap may ever be observed), the multiset of chunks must equal byte-for-byte the lines produced by each call alone on a fresh handler, per-goroutine order preserved, nothing written below the threshold, no field-level race. Every operation has its own instant (per-thread clocks), so a line carrying another record\'s time is a difference; two further scenarios derive from one shared non-root parent whose rendered attributes leave spare capacity (free choice of its width). A destination that refuses one record does so in three ways (EAGAIN, io.ErrShortWrite, a short count without error): still exactly one Write for it.',
+   text='For each of the three handlers, 2-3 goroutines x 1-3 operations (root log, pre-derived child log, derive-then-log, below threshold, 20 KiB record, formatted log); Write begin/end are monitor events (no overlap may ever be observed), the multiset of chunks must equal byte-for-byte the lines produced by each call alone on a fresh handler, per-goroutine order preserved, nothing written below the threshold, no field-level race. Every operation has its own instant (per-thread clocks), so a line carrying another record\'s time is a difference; two further scenarios derive from one shared non-root parent whose rendered attributes leave spare capacity (free choice of its width). A destination that refuses one record does so in three ways (EAGAIN, io.ErrShortWrite, a short count without error): still exactly one Write for it. Scenario grouped-slow-valuer: two goroutines log through one pre-derived logger inside a group, with group attributes and a LogValuer whose resolution is a monitor event, so each record is rendered while the other is half done.',
    note=S_NOTE),
  'C11': dict(engine='vstate', cat='model_checking', ref='4 (C11), 2.3',
    technique='explicit-state BFS whose transition function is the real Add/Remove call, to a fixpoint with list size 3 and to depth 3-4 around the real switch at 256, against a set-of-prefixes reference model',
@@ -56,11 +56,11 @@ CHECKS = {
    note=S_NOTE + ' The state key contains every pooled Store (names, values up to capacity, status, id length); the id counter is excluded (ids are checked along each path).'),
  'C01': dict(engine='vstate-style enumeration (vlogrun)', cat='model_checking', ref='4 (C01), 2.3, 2.4',
    technique='bounded exhaustive enumeration of inputs (all 1-/2-byte strings, all Unicode scalars) and of With/WithGroup chain x call-site attribute trees within a node budget, every record run through the real Logger+JsonHandler and judged by an independent ordered JSON reader and reference builder',
-   text='Every 1- and 2-byte string and every Unicode scalar as message, key and value (thorough: all three positions for scalars too); all 36 value kinds at 9 position classes x 5 levels x source on/off x 2 entry points; every (chain, call attributes) combination within the node budget (109 671 records quick). Each record must be one newline-terminated line (however many Write calls carry it: the subject of C02) that parses to time, level, [source = the harness call site], msg and exactly the expected ordered member tree.',
+   text='Every 1- and 2-byte string and every Unicode scalar as message, key and value (thorough: all three positions for scalars too); all 36 value kinds at 9 position classes x 5 levels x source on/off x 2 entry points; every (chain, call attributes) combination within the node budget (109 671 records quick). Each record must be one newline-terminated line (however many Write calls carry it: the subject of C02) that parses to time, level, [source = the harness call site], msg and exactly the expected ordered member tree. Pass same-second-different-zones: 24 records one after the other whose instants share a second but carry different time zones; each line must carry its own time.',
    note=LOG_NOTE),
  'C13': dict(engine='vstate-style enumeration (vlogrun)', cat='model_checking', ref='4 (C13), 2.3, 2.4',
    technique='bounded exhaustive enumeration as for C01 plus group names over arbitrary bytes and class-representative strings, judged by an independent key=value tokenizer (bare run or Go-quoted string) and the reference flattening to dotted paths',
-   text='Same generators as C01 against the Text handler, plus every 1-/2-byte string as WithGroup name and as group key and every string of <=3 representatives of 15 character classes (letter, space, =, quote, backslash, newline, DEL, NBSP, U+2028, zero-width, U+FFFD, invalid byte, tab, dot, non-ASCII) in message / key / group / value position. The line must tokenize unambiguously and unquote to exactly time, level, [source], msg and each leaf with its dotted path; strings, errors, text-marshalled values, integers and bools are compared exactly, floats / durations / times by what they denote, composite and nil values only as one token.',
+   text='Same generators as C01 against the Text handler, plus every 1-/2-byte string as WithGroup name and as group key and every string of <=3 representatives of 15 character classes (letter, space, =, quote, backslash, newline, DEL, NBSP, U+2028, zero-width, U+FFFD, invalid byte, tab, dot, non-ASCII) in message / key / group / value position. The line must tokenize unambiguously and unquote to exactly time, level, [source], msg and each leaf with its dotted path; strings, errors, text-marshalled values, integers and bools are compared exactly, floats / durations / times by what they denote, composite and nil values only as one token. Pass same-second-different-zones as in C01.',
    note=LOG_NOTE),
  'C03': dict(engine='vstate+vsched', cat='model_checking', ref='4 (C03), 2.2, 2.3',
    technique='explicit-state BFS over derivation trees of the real handlers with a differential oracle (isolated replay of each logger\'s own chain; call-site equivalence), plus stateless model checking of two concurrent derivers with race detection',
